@@ -152,14 +152,15 @@ structure StepOut where
   outbox : List (Nat × Msg)
   snap : List (String × String)
   tapeBad : Bool := false
+  panicSite : Option String := none
 
 def natArg (l : List String) (i : Nat) : Nat := ((l[i]?).bind String.toNat?).getD 0
 
 /-- Executes one call block on the model. A model panic is the result "PANIC". -/
 def stepModel (m : SessModel) (b : Block) : StepOut :=
-  let panic : StepOut := { next := .dead, result := "PANIC", outbox := [], snap := [] }
+  let panicAt (site : String) : StepOut := { next := .dead, result := "PANIC", outbox := [], snap := [], panicSite := some site }
   match m with
-  | .dead => panic
+  | .dead => panicAt "session already dead"
   | .p2p s0 =>
     let s := { s0 with remotes := loadTape s0.remotes b.sent, spectators := loadTape s0.spectators b.sent, outbox := [] }
     let fin (s : P2P) (res : String) : StepOut :=
@@ -168,21 +169,21 @@ def stepModel (m : SessModel) (b : Block) : StepOut :=
         tapeBad := tapeProblem s.remotes || tapeProblem s.spectators }
     match b.call with
     | ["poll"] => match s.pollRemoteClients b.now b.recv with
-      | .ok s => fin s "ok" | .error _ => panic
+      | .ok s => fin s "ok" | .error site => panicAt site
     | ["adv"] => match s.advanceFrame b.now b.recv with
-      | .ok (s, r) => fin s (advResultText r) | .error _ => panic
+      | .ok (s, r) => fin s (advResultText r) | .error site => panicAt site
     | ["addin", h, v] =>
       let (s, r) := s.addLocalInput (h.toNat?.getD 0) (UInt8.ofNat (v.toNat?.getD 0))
       fin s (unitResultText r)
     | ["events"] => let (s, evs) := s.events; fin s (eventsText evs)
     | ["setdelay", h, d] => match s.setInputDelay b.now (h.toNat?.getD 0) (d.toNat?.getD 0) with
-      | .ok (s, r) => fin s (unitResultText r) | .error _ => panic
+      | .ok (s, r) => fin s (unitResultText r) | .error site => panicAt site
     | ["disc", h] => match s.disconnectPlayer b.now (h.toNat?.getD 0) with
-      | .ok (s, r) => fin s (unitResultText r) | .error _ => panic
+      | .ok (s, r) => fin s (unitResultText r) | .error site => panicAt site
     | ["stats", h] => match s.networkStats b.now (h.toNat?.getD 0) with
       | .ok (.err e) => fin s s!"err {errText e}"
       | .ok (.ok p q l r) => fin s s!"ok {p} {q} {l} {r}"
-      | .error _ => panic
+      | .error site => panicAt site
     | _ => fin s "unsupported"
   | .spec s0 =>
     let host := (loadTape [(s0.host.peerAddr, s0.host)] b.sent).head!.2
@@ -192,9 +193,9 @@ def stepModel (m : SessModel) (b : Block) : StepOut :=
         tapeBad := tapeProblem [(0, s.host)] }
     match b.call with
     | ["poll"] => match s.pollRemoteClients b.now b.recv with
-      | .ok s => fin s "ok" | .error _ => panic
+      | .ok s => fin s "ok" | .error site => panicAt site
     | ["adv"] => match s.advanceFrame b.now b.recv with
-      | .ok (s, r) => fin s (advResultText r) | .error _ => panic
+      | .ok (s, r) => fin s (advResultText r) | .error site => panicAt site
     | ["events"] => let (s, evs) := s.events; fin s (eventsText evs)
     | ["stats"] => match s.host.networkStats b.now with
       | .notSynchronized => fin s "err NotSynchronized"
@@ -207,7 +208,7 @@ def stepModel (m : SessModel) (b : Block) : StepOut :=
       { next := .sync s, result := res, outbox := [], snap := [("cur", toString s.sync.currentFrame)] }
     match b.call with
     | ["adv"] => match s.advanceFrame with
-      | .ok (s, r) => fin s (advResultText r) | .error _ => panic
+      | .ok (s, r) => fin s (advResultText r) | .error site => panicAt site
     | ["addin", h, v] =>
       let (s, r) := s.addLocalInput (h.toNat?.getD 0) (UInt8.ofNat (v.toNat?.getD 0))
       fin s (unitResultText r)
@@ -241,7 +242,7 @@ def canonEvents (r : String) : String :=
   | _ => r
 
 /-- Compares one block. -/
-def checkBlock (m : SessModel) (b : Block) : SessModel × Option Mismatch :=
+def checkBlock (m : SessModel) (b : Block) : SessModel × Option Mismatch × Option String :=
   let out := stepModel m b
   let mk (cls impl model : String) : Option Mismatch := some ⟨"", b.sid, b.lineNo, cls, impl, model⟩
   let callName := b.call.headD "?"
@@ -255,7 +256,7 @@ def checkBlock (m : SessModel) (b : Block) : SessModel × Option Mismatch :=
         else match compareSnap b.snap out.snap with
           | some (c, i, mo) => mk c i mo
           | none => none
-  (out.next, mis)
+  (out.next, mis, out.panicSite)
 
 structure AcceptState where
   models : List (Nat × SessModel) := []
@@ -267,6 +268,7 @@ structure AcceptState where
   cur : Option Block := none
   scenario : String := ""
   scenarios : Nat := 0
+  notes : List String := []
 
 def setModel (l : List (Nat × SessModel)) (sid : Nat) (m : SessModel) : List (Nat × SessModel) :=
   if l.any (·.1 == sid) then l.map fun (a, x) => if a == sid then (a, m) else (a, x) else l ++ [(sid, m)]
@@ -280,7 +282,10 @@ def finishBlock (st : AcceptState) : AcceptState :=
     match st.models.find? (·.1 == b.sid) with
     | none => st
     | some (_, m) =>
-      let (m', mis) := checkBlock m b
+      let (m', mis, site) := checkBlock m b
+      let st := match site with
+        | some x => { st with notes := st.notes ++ [s!"NOTE scenario={st.scenario} sid={b.sid} line={b.lineNo} call={" ".intercalate b.call} model-panic={x}"] }
+        | none => st
       match mis with
       | none => { st with models := setModel st.models b.sid m', accepted := st.accepted + 1 }
       | some x => { st with diverged := st.diverged ++ [b.sid],
